@@ -92,3 +92,9 @@ add("C13", "c13", q, t)
 # ---- C14 slicez ---------------------------------------------------------------------
 q, t = rapid_jobs(qshards=4, tshards=16, tscale=10)
 add("C14", "c14", q, t)
+
+# ---- C10 rings, sequential -------------------------------------------------------------
+q, t = rapid_jobs(qshards=4, tshards=12, tscale=12)
+t["jobs"].append(dict(name="wrap", mode="plain", run="^TestWrapHonest$", shards=4, timeout=3000))
+add("C10", "c10", q, t)
+ASSUMPTIONS["C10"] = ["quick tier reaches counter values near 2^32 with a reflection helper that writes the state k push/pop pairs would produce; the helper is validated against honest stepping in every run (sub-check fastforward_selfcheck) and skips itself if the struct layout changes; the thorough tier performs the >2^32 operations honestly"]
